@@ -288,7 +288,7 @@ def preserves_choice_order(choices: list[ChoiceChoice]) -> bool:
                 return False
 
             if choice.case == ChoiceCase.SENSITIVE:
-                folded = value.casefold()
+                folded = _ascii_lower(value)
                 if any(
                     len(other) != len(value)
                     and (folded.startswith(other) or other.startswith(folded))
@@ -296,11 +296,16 @@ def preserves_choice_order(choices: list[ChoiceChoice]) -> bool:
                 ):
                     return False
             else:
-                insensitive.append(value.casefold())
+                insensitive.append(_ascii_lower(value))
         else:
             singles.append(choice)
 
     return True
+
+
+def _ascii_lower(value: str) -> str:
+    """Return `value` with ASCII letters in lower case, the case we ignore."""
+    return "".join(ch.lower() if ch.isascii() else ch for ch in value)
 
 
 def _matches_char(choice: ChoiceChoice, char: str, case: ChoiceCase) -> bool:
